@@ -150,7 +150,7 @@ def accessor_rule(ctx):
                     while t[0] == "call" and len(t) == 3 and t[1].split("::")[-1] in conv + ("into", "to_owned", "clone", "from"):
                         t = t[2]
                         n_conv += 1
-                    if t[0] == "call" and n_conv >= 1:
+                    if t[0] == "call":     # (the field types String / Vec<u8> make the copy; to_owned/into are transparent in terms)
                         ic = t[1]
                         fmtname = ic.split("::")[2] if ic.startswith("bio::io::") else "?"
                         ok = ic in ("bio::io::fasta::Record::%s" % want, "bio::io::fastq::Record::%s" % want)
